@@ -185,9 +185,22 @@ main(int argc, char *argv[])
         } else if (!strcmp(cmd, "convzero")) {
             /* probability 0: its log is log-zero, and going back must not give more than went in */
             int v = logmath_log(lm, 0.0);
+            /* log-zero is the smallest log value there is, not minus infinity: going back gives the smallest
+             * probability the configuration can express (0 when the double underflows) - never more than what any
+             * positive probability comes back as */
+            static const double probes[] = { 1e-300, 1e-150, 1e-48, 1e-10, 0.5, 1.0 };
             double back = logmath_exp(lm, v), backz = logmath_exp(lm, logmath_get_zero(lm));
-            fprintf(vt_out, "{\"e\":\"ZeroConv\",\"v\":%d,\"zero\":%d,\"back_is_zero\":%s,\"expzero_is_zero\":%s}\n", v,
-                    logmath_get_zero(lm), back == 0.0 ? "true" : "false", backz == 0.0 ? "true" : "false");
+            int k, le_all = 1;
+            for (k = 0; k < 6; ++k) {
+                int lv = logmath_log(lm, probes[k]);
+                double b = logmath_exp(lm, lv);
+                /* (with a base very close to 1 the log of a tiny probability lies below log-zero: such values count
+                 * as zero in every operation and are not compared) */
+                if (lv >= logmath_get_zero(lm) && (!(back <= b) || !(backz <= b)))
+                    le_all = 0;
+            }
+            fprintf(vt_out, "{\"e\":\"ZeroConv\",\"v\":%d,\"zero\":%d,\"back_is_zero\":%s,\"expzero_is_zero\":%s,\"le_all\":%s}\n", v,
+                    logmath_get_zero(lm), back == 0.0 ? "true" : "false", backz == 0.0 ? "true" : "false", le_all ? "true" : "false");
         } else if (!strcmp(cmd, "conv")) {
             static long v[8192], flo[8192], cei[8192], elo[8192], ehi[8192], cls[8192];
             static char *ps[8192];
